@@ -110,3 +110,12 @@ fn f05_alpha_lerp_full() {
     dt.fill(&rect_path(0., 0., 2., 2.), &red(), &DrawOptions { blend_mode: BlendMode::Src, alpha: 1., antialias: AntialiasMode::Gray });
     assert_eq!(dt.get_data()[0], 0xffff0000);
 }
+
+#[test] // finding 11: C07  global alpha above 1 overflows in alpha_mul / alpha_to_alpha256 (debug builds panic)
+fn f11_alpha_above_one() {
+    for alpha in [2.0f32, 1e9, f32::INFINITY] {
+        let mut dt = DrawTarget::new(2, 2);
+        dt.fill_rect(0., 0., 2., 2., &Source::Solid(white()), &DrawOptions { blend_mode: BlendMode::SrcOver, alpha, antialias: AntialiasMode::Gray });
+        assert!(dt.get_data().iter().all(|p| *p == 0xffffffff), "alpha {} behaves as 1", alpha);
+    }
+}
